@@ -217,3 +217,9 @@ Definition key_advances (num_samples : nat) : nat := num_samples.
 Definition mass_consistent (s im : Q) : Prop := (s * s * im == 1)%Q.
 (* expected kinetic energy  E[ im * p^2 / 2 ]  of an entry with p = s * z, E[z^2] = 1 *)
 Definition expected_kinetic (s im : Q) : Q := ((1 # 2) * (im * (s * s)))%Q.
+
+(* generate_nuts_tree / cond_tree_doubling: the new sub-tree is merged only if it neither turned nor diverged
+     current_tree = cond(pred=new_subtree.turning | new_subtree.diverging,
+                         true_fun=lambda old_and_new: old_and_new[0], false_fun=... merge_trees(...))
+     stop = new_subtree.turning | current_tree.turning;  stop |= new_subtree.diverging                      *)
+Definition merge_guard (turning diverging : bool) : bool := negb (turning || diverging).
